@@ -209,6 +209,51 @@ prop(
     min_counters={"quick": {"gate_inserts": 5000, "gate_updates": 3000}, "thorough": {"gate_inserts": 20000}},
 )
 
+prop(
+    "C10",
+    title="Summary information survives saving, in every code page",
+    technique="reference-model runtime monitor of the ten summary properties + independent property-set parser over every saved stream (offset alignment, exact section size, typed values)",
+    rule="for each of the 26 pages: strings with every (ascii count, multi-byte count) in 0..4 x 0..4 for up to 3 character shapes on all five string properties; all 26 x 26 "
+         "ordered switch pairs A -> B -> UTF-8 -> A; arch/language/uuid/word-count/time set-clear orders; random 5-30 step setter/clearer histories with save points and "
+         "continuation on the reopened package, a quarter of them with unrepresentable strings; distinct = scenario parameters resp. setter-kind sequence; non-trivial = at least one save point was checked",
+    level_text="After every setter the getters are compared with the model; at every save point the reopened getters AND an independent parse of the raw summary stream "
+               "(header, section size == stream length - offset, 4-byte aligned offsets pointing at typed values, no overlap) are compared with the model.",
+    level_note="Unrepresentable strings are only required to leave every other property intact and the stream well-formed.",
+    assumptions=[TRUST_CFB, TRUST_CODEC, TRUST_ENC],
+    design_ref="3/C10",
+    min_counters={"quick": {"save_points": 5000, "switch_pairs": 676}, "thorough": {"save_points": 100000}},
+)
+
+prop(
+    "C11",
+    title="Binary streams keep their names and contents, apart from the tables",
+    technique="stream-map reference-model runtime monitor + raw container entry diff through the independent decoder; bounded-exhaustive adversarial names",
+    rule="all names of length <= 2 (quick, plus 1/5 of length 3) / <= 3 (thorough) over a 20-character alphabet (packable, unpackable ASCII/non-ASCII, packing-range "
+         "characters U+3800/3FFF/4800/483F, table marker, path separators, reserved characters, control characters), each batched with the name its packed form unpacks to; "
+         "packable names of every length 1..66; special names (pool, catalog, user table, summary, signatures, with and without the table marker, '.', '..', 'a/b'); contents 0..70,000 "
+         "bytes; write/overwrite/remove histories interleaved with table operations and reopen; distinct = (name class, length in chars, length in UTF-16 units) resp. history log",
+    level_text="After every accepted write all live streams must be listed exactly as given and read back their own bytes; table, pool, summary and signature entries are "
+               "compared byte for byte before/after via the independent decoder; every call runs under the panic supervisor.",
+    level_note="Distinct names whose stored forms are equal under the container's case-insensitive comparison are an ambiguous group and are excluded (counted).",
+    assumptions=[TRUST_CFB, TRUST_CODEC],
+    design_ref="3/C11",
+    min_counters={"quick": {"writes_accepted": 1000, "verifications": 2000}, "thorough": {"writes_accepted": 10000}},
+)
+
+prop(
+    "C12",
+    title="Joins and projections produce the documented row combinations",
+    technique="query-tree reference-model runtime monitor (nested-loop semantics, documented column naming) on all small table contents, under the panic supervisor",
+    rule="every select tree of depth <= 1 (5 leaf forms incl. filtered / projected / self-join operands x 10 join conditions incl. two naming an unknown column x inner/left x 6 "
+         "top-level forms), depth-2 trees by stride, random depth-3 trees; on 64 (quick) / all 256 (thorough) content pairs of A(K,V), B(K,R) with keys in {1,2} and values in "
+         "{absent, null, 1, 2}; distinct = (tree, contents); non-trivial = the model's answer has rows or is an error",
+    level_text="Column names, rows, row order, Rows::len and Ok/Err of select_rows are compared with the model for every tree and content pair.",
+    level_note="A projected sub-select is anonymous (no table. prefix), a filtered base table keeps its name: the model follows the library's reading of 'named table'.",
+    assumptions=[TRUST_MODEL],
+    design_ref="3/C12",
+    min_counters={"quick": {"selects_checked": 50000, "content_pairs": 64}, "thorough": {"content_pairs": 256}},
+)
+
 ALL_IDS = ["C%02d" % i for i in range(1, 21)]
 
 
